@@ -106,6 +106,13 @@ func TestVerifH7(t *testing.T) {
 							if uid != wantUID {
 								vt.Alarm("ltcred-userid", "%s uid=%q want %q", kind, uid, wantUID)
 							}
+							// the key is a function of (username, realm, password): the SAME handler instance asked about the same
+							// username under another realm must return that realm's key (and the first realm's key again afterwards)
+							for _, r2 := range []string{realm + "2", "other.example", realm} {
+								if _, k3, ok3 := h(&auth.RequestAttributes{Username: username, Realm: r2}); ok3 && !h7Verifies(username, r2, password, k3) {
+									vt.Alarm("ltcred-key", "%s key returned for realm %q (after realm %q) does not verify the generated password", kind, r2, realm)
+								}
+							}
 							// another secret's handler must not return a key our password verifies under
 							if _, k2, ok2 := other(&auth.RequestAttributes{Username: username, Realm: realm}); ok2 && h7Verifies(username, realm, password, k2) {
 								vt.Alarm("ltcred-other-secret", "%s password verifies under another secret's key", kind)
